@@ -60,7 +60,9 @@ def c09_jobs(tier):
     jobs = []
     shapes = [(2, 2), (3, 2), (2, 3)] if tier == "quick" else [(2, 2), (3, 2), (2, 3), (3, 3)]
     for which in range(6):
-        sh = shapes if which < 3 else shapes[:3]  # 2x3 affine: where the layer-blind trace-back first showed without adjacent gaps
+        # affine aligners: 2x3 is where the layer-blind trace-back first showed without adjacent gaps; 3x3 is the
+        # smallest shape with a gap in one sequence directly next to a gap in the other inside the alignment
+        sh = shapes if which < 3 else [(2, 2), (3, 2), (2, 3), (3, 3)]
         for (n, m) in sh:
             jobs.append(_al("VerifC09_WellFormed", which, n, m))
         for kind in range(8):
@@ -355,7 +357,7 @@ CHECKS["C19"] = {
 
 def c12_jobs(tier):
     jobs = []
-    shapes = [(1, 2, 2), (1, 3, 1), (2, 3, 2), (2, 5, 1)] if tier == "quick" else [(1, 2, 3), (1, 3, 2), (2, 3, 3), (2, 4, 2), (2, 5, 2), (3, 7, 1)]
+    shapes = [(1, 2, 2), (1, 3, 1), (2, 3, 2), (2, 5, 1)] if tier == "quick" else [(1, 2, 3), (1, 3, 2), (2, 3, 3), (2, 4, 2), (2, 5, 2), (3, 6, 1), (2, 6, 1)]  # (3,7,1) does not finish in 3000 s (measured)
     for (c, n, pre) in shapes:
         j = _mor("VerifC12_Concurrent", c, [n])
         j.update({"sched": "sym", "preempt": pre, "timeout_s": 600 if tier == "quick" else 3000})
@@ -525,7 +527,7 @@ def c14_jobs(tier):
     jobs = []
     # (k, n, e, offset, |T|, |Q|, self). The first three are the smallest shapes on which the three
     # defects repaired in /repo (known_findings.txt, fixed: C14) were found by this check.
-    shapes = [(1, 1, 0, 2, 2, 3, 0), (1, 2, 1, 3, 2, 5, 0), (3, 3, 0, 1, 4, 5, 0), (1, 2, 1, 1, 3, 4, 1), (1, 1, 0, 1, 2, 4, 0),
+    shapes = [(1, 1, 0, 2, 2, 3, 0), (1, 2, 1, 3, 2, 5, 0), (3, 3, 0, 1, 4, 5, 0), (1, 2, 1, 1, 3, 4, 1), (1, 1, 0, 1, 2, 4, 0), (1, 2, 1, 2, 2, 4, 0), (1, 2, 1, 1, 2, 4, 0),
               (2, 3, 0, 2, 3, 5, 0), (2, 3, 0, 1, 4, 4, 0), (2, 3, 0, 1, 4, 4, 1)]
     if tier != "quick":
         shapes += [(1, 2, 0, 2, 3, 4, 0), (1, 3, 1, 2, 3, 5, 0), (1, 2, 1, 2, 3, 5, 1), (1, 3, 2, 2, 3, 5, 0),
